@@ -229,6 +229,8 @@ impl Ctx {
         arts.sort();
         let (mut crashes, mut timeouts, mut ooms, mut reproduced, mut known, mut unreproduced, mut died) = (0u64, 0u64, 0u64, 0u64, 0u64, 0u64, 0u64);
         let mut seen_whats: Vec<String> = vec![];
+        let rejudge_start = std::time::Instant::now();
+        let mut not_rejudged = 0u64;
         let exe = std::env::current_exe().ok();
         for a in &arts {
             let name = a.file_name().and_then(|n| n.to_str()).unwrap_or("");
@@ -244,7 +246,9 @@ impl Ctx {
                 continue;
             }
             crashes += 1;
-            if crashes > 400 {
+            // re-judgement is bounded: 60 artifacts and 10 minutes per campaign (the rest is counted only)
+            if crashes > 60 || rejudge_start.elapsed().as_secs() > 600 {
+                not_rejudged += 1;
                 continue;
             }
             // strict re-judgement in a child process (an input that kills the process must not kill the check)
@@ -304,7 +308,7 @@ impl Ctx {
             "seed_corpus_files": nseeds, "executions": last.0, "coverage_edges": last.1, "features": last.2, "corpus_units": last.3,
             "oom_timeout_crash": last.4, "exit": status.map(|s| s.code()).ok().flatten(),
             "artifacts": {"crash": crashes, "timeout": timeouts, "oom": ooms},
-            "rejudged": {"reproduced_as_violation": reproduced, "attributed_to_known_finding": known, "not_reproduced": unreproduced, "process_died": died},
+            "rejudged": {"reproduced_as_violation": reproduced, "attributed_to_known_finding": known, "not_reproduced": unreproduced, "process_died": died, "not_rejudged_over_budget": not_rejudged},
         });
         let mut st = self.stats.lock().unwrap();
         let e = st.extra.entry("fuzz_campaigns".to_string()).or_insert_with(|| json!([]));
